@@ -15,7 +15,7 @@
 (* LayoutProps (footer truthfulness, page legality, framing): the same     *)
 (* definitions that MC_Dremel / MC_Layout model-check.                     *)
 (***************************************************************************)
-EXTENDS Dremel, LayoutProps, Json
+EXTENDS Dremel, LayoutProps, Stats, Json
 
 CONSTANTS TraceFile,   \* ndjson file with the recorded events
           Props        \* property ids whose conjuncts are evaluated
@@ -29,9 +29,10 @@ VARIABLES l,        \* next line of the trace
           batches,  \* the non-empty batches flushed so far (sequences of records)
           snk,      \* what reached the sink: segments (see LayoutProps)
           wc,       \* number of Write calls so far
-          faultK    \* sink-fault runs: index of the failing sink call
+          faultK,   \* sink-fault runs: index of the failing sink call
+          rowsTab   \* the distinct row lists delivered by reader runs of this case (Read events refer to them by id)
 
-vars == <<l, caseId, schema, cols, maxPage, codecN, recs, batches, snk, wc, faultK>>
+vars == <<l, caseId, schema, cols, maxPage, codecN, recs, batches, snk, wc, faultK, rowsTab>>
 
 Trace == ndJsonDeserialize(TraceFile)
 Ev == Trace[l]
@@ -46,14 +47,14 @@ ColPath(c) == LeafPaths(schema)[c]
 Expected == Concat(batches)
 
 Init == /\ l = 1 /\ caseId = "" /\ schema = <<>> /\ cols = <<>> /\ maxPage = 0 /\ codecN = 0
-        /\ recs = <<>> /\ batches = <<>> /\ snk = <<>> /\ wc = 0 /\ faultK = 0
+        /\ recs = <<>> /\ batches = <<>> /\ snk = <<>> /\ wc = 0 /\ faultK = 0 /\ rowsTab = <<>>
 
 \* ---------------------------------------------------------------- Reset
 TReset ==
   /\ More /\ Ev.ev = "Reset"
   /\ caseId' = Ev.case /\ schema' = Ev.schema /\ cols' = Ev.cols
   /\ maxPage' = Ev.max /\ codecN' = Ev.codecn
-  /\ recs' = <<>> /\ batches' = <<>> /\ snk' = <<>> /\ wc' = 0 /\ faultK' = 0
+  /\ recs' = <<>> /\ batches' = <<>> /\ snk' = <<>> /\ wc' = 0 /\ faultK' = 0 /\ rowsTab' = <<>>
   /\ l' = l + 1
   \* harness sanity: the driver's column list is the specification's leaf list
   /\ Chk("HARNESS", "ColumnsMatchSchema",
@@ -70,7 +71,7 @@ TNew ==
   /\ Chk("C02", "HeadMagic", Ev.res = "ok" => (Ev.magic /\ Ev.len = 4))
   /\ snk' = IF Ev.len > 0 THEN << Seg("magic", Ev.len, 0, 0, 0, 0, 0) >> ELSE <<>>
   /\ l' = l + 1
-  /\ UNCHANGED <<caseId, schema, cols, maxPage, codecN, recs, batches, wc, faultK>>
+  /\ UNCHANGED <<caseId, schema, cols, maxPage, codecN, recs, batches, wc, faultK, rowsTab>>
 
 \* ---------------------------------------------------------------- Add
 TAdd ==
@@ -78,7 +79,7 @@ TAdd ==
   /\ Chk("C01", "AddDoesNotPanic", Ev.res = "ok")
   /\ recs' = Append(recs, Ev.rec)
   /\ l' = l + 1
-  /\ UNCHANGED <<caseId, schema, cols, maxPage, codecN, batches, snk, wc, faultK>>
+  /\ UNCHANGED <<caseId, schema, cols, maxPage, codecN, batches, snk, wc, faultK, rowsTab>>
 
 \* ---------------------------------------------------------------- Write
 \* entries <<rep, def, tok>> stored in one page (tok = -1 where def < maxdef)
@@ -101,12 +102,14 @@ PageWellFormed(pg) ==
   /\ pg.nvals >= 0
   /\ (cols[pg.col].maxrep > 0 /\ pg.nvals > 0) => pg.firstrep = 0
 
-StatsNullCount(pg) == pg.stats.hasnull => pg.stats.nullcount = pg.nvals - pg.nonnull
-StatsSound(pg) ==
-  /\ pg.stats.bad = ""
-  /\ pg.stats.hasmin => \A i \in 1..Len(pg.stats.ords) : pg.stats.ords[i] >= 0 => pg.stats.minord <= pg.stats.ords[i]
-  /\ pg.stats.hasmax => \A i \in 1..Len(pg.stats.ords) : pg.stats.ords[i] >= 0 => pg.stats.ords[i] <= pg.stats.maxord
-StatsAbsentWhenEmpty(pg) == pg.nonnull = 0 => (~pg.stats.hasmin /\ ~pg.stats.hasmax)
+\* the page as Stats.tla sees it: ranks of the non-null values (NaN = -2), then the nulls
+StatPage(pg) == [i \in 1..Len(pg.stats.ords) |-> IF pg.stats.ords[i] < 0 THEN -2 ELSE pg.stats.ords[i]]
+                \o [i \in 1..(pg.nvals - pg.nonnull) |-> -1]
+StatHdr(pg) == [hasnull |-> pg.stats.hasnull, nullcount |-> pg.stats.nullcount,
+                hasmin |-> pg.stats.hasmin, hasmax |-> pg.stats.hasmax, min |-> pg.stats.minord, max |-> pg.stats.maxord]
+StatsNullCount(pg) == NullCountExact(StatPage(pg), StatHdr(pg))
+StatsSound(pg) == pg.stats.bad = "" /\ MinMaxSound(StatPage(pg), StatHdr(pg))
+StatsAbsentWhenEmpty(pg) == AbsentWhenEmpty(StatPage(pg), StatHdr(pg))
 
 PageSegs(pages, w) ==
   Concat([i \in 1..Len(pages) |->
@@ -146,7 +149,7 @@ TWrite ==
               /\ Ev.problems = <<>> =>
                    Ev.start + Ev.orphan + Sum([i \in 1..Len(pages) |-> pages[i].hlen + pages[i].clen]) = Ev.end)
        /\ batches' = IF Len(recs) > 0 THEN Append(batches, recs) ELSE batches
-  /\ UNCHANGED <<caseId, schema, cols, maxPage, codecN, faultK>>
+  /\ UNCHANGED <<caseId, schema, cols, maxPage, codecN, faultK, rowsTab>>
 
 \* ---------------------------------------------------------------- Close
 FooterVal(f) ==
@@ -204,12 +207,13 @@ TClose ==
                       /\ \A k \in 1..Len(f.rgs) : k <= Len(batches) => f.rgs[k].numrows = Len(batches[k]))
        /\ Chk("C06", "FooterRowCount", f.ok => f.numrows = Len(Expected))
        /\ Chk("C06", "RowGroupsWhereWritten", f.ok => FooterTruthfulOn(snk, FooterVal(f), NCols, codecN))
-  /\ UNCHANGED <<caseId, schema, cols, maxPage, codecN, recs, batches, wc, faultK>>
+  /\ UNCHANGED <<caseId, schema, cols, maxPage, codecN, recs, batches, wc, faultK, rowsTab>>
 
 \* ---------------------------------------------------------------- reading back
+RowsOf(e) == IF e.rowsid >= 1 /\ e.rowsid <= Len(rowsTab) THEN rowsTab[e.rowsid] ELSE <<"unknown rows id">>
 RoundTrip(e) ==
   /\ e.panic = "" /\ e.open = "ok" /\ ~e.haserr
-  /\ e.rows = Expected
+  /\ RowsOf(e) = Expected
   /\ e.rowsrep = Len(Expected) /\ e.nexts = Len(Expected)
 
 TRead ==
@@ -227,36 +231,43 @@ TRead ==
        [] Ev.mode = "fault" ->
             /\ Chk("C10", "NoPanic", Ev.panic = "")
             /\ Chk("C10", "ErrorOrAllRowsCorrect",
-                   Ev.panic = "" => (Ev.open = "err" \/ Ev.haserr \/ (Ev.rows = Expected /\ Ev.nexts = Len(Expected))))
+                   Ev.panic = "" => (Ev.open = "err" \/ Ev.haserr \/ (RowsOf(Ev) = Expected /\ Ev.nexts = Len(Expected))))
        [] Ev.mode = "trunc" ->
             /\ Chk("C11", "NoPanic", Ev.panic = "")
             /\ Chk("C11", "TruncationRejected", Ev.panic = "" => (Ev.open = "err" \/ Ev.haserr))
        [] OTHER -> TRUE
+  /\ UNCHANGED <<caseId, schema, cols, maxPage, codecN, recs, batches, snk, wc, faultK, rowsTab>>
+
+TRows ==
+  /\ More /\ Ev.ev = "Rows"
+  /\ l' = l + 1
+  /\ Chk("HARNESS", "RowsIdsInOrder", Ev.id = Len(rowsTab) + 1)
+  /\ rowsTab' = Append(rowsTab, Ev.rows)
   /\ UNCHANGED <<caseId, schema, cols, maxPage, codecN, recs, batches, snk, wc, faultK>>
 
 \* ---------------------------------------------------------------- sink faults (C09)
 TSinkRun ==
   /\ More /\ Ev.ev = "SinkRun"
   /\ faultK' = Ev.k /\ l' = l + 1
-  /\ UNCHANGED <<caseId, schema, cols, maxPage, codecN, recs, batches, snk, wc>>
+  /\ UNCHANGED <<caseId, schema, cols, maxPage, codecN, recs, batches, snk, wc, rowsTab>>
 
 TSinkCall ==
   /\ More /\ Ev.ev = "SinkCall"
   /\ l' = l + 1
   /\ Chk("C09", "NoPanic", Ev.res # "panic")
   /\ Chk("C09", "FaultReported", Ev.hit => Ev.res = "err")
-  /\ UNCHANGED <<caseId, schema, cols, maxPage, codecN, recs, batches, snk, wc, faultK>>
+  /\ UNCHANGED <<caseId, schema, cols, maxPage, codecN, recs, batches, snk, wc, faultK, rowsTab>>
 
 \* ---------------------------------------------------------------- other lines
 TOther ==
-  /\ More /\ Ev.ev \notin {"Reset", "New", "Add", "Write", "Close", "Read", "SinkRun", "SinkCall"}
+  /\ More /\ Ev.ev \notin {"Reset", "New", "Add", "Write", "Close", "Read", "Rows", "SinkRun", "SinkCall"}
   /\ l' = l + 1
   /\ Chk("HARNESS", "DriverPanic", Ev.ev # "DriverPanic")
-  /\ UNCHANGED <<caseId, schema, cols, maxPage, codecN, recs, batches, snk, wc, faultK>>
+  /\ UNCHANGED <<caseId, schema, cols, maxPage, codecN, recs, batches, snk, wc, faultK, rowsTab>>
 
 TDone == /\ l = Len(Trace) + 1 /\ PrintT(<<"TRACEDONE", Len(Trace)>>) /\ UNCHANGED vars
 
-Next == TReset \/ TNew \/ TAdd \/ TWrite \/ TClose \/ TRead \/ TSinkRun \/ TSinkCall \/ TOther \/ TDone
+Next == TReset \/ TNew \/ TAdd \/ TWrite \/ TClose \/ TRead \/ TRows \/ TSinkRun \/ TSinkCall \/ TOther \/ TDone
 Spec == Init /\ [][Next]_vars
 
 \* every line was consumed: one state per line plus the initial state
